@@ -36,7 +36,7 @@ CHECKS = {
         text="Exhaustive over short texts of every line shape (mapped/unmapped throwable, cause variants incl. indented, mapped frames resolving to 1 or 2 frames, tab-indented, Native Method, '... n more', blank, look-alike, free text; CRLF and missing final newline) with the identity-under-empty-mapping law; seeded traces over generated and corpus mappings validated line by line.",
         design="4 C07", note="Bounded line alphabet; sampled traces. Trusted: TLC, Json module, harness (canary-checked)."),
     "C08": dict(
-        technique="TypedRemap + TypedLaw + typed/text agreement in TLA+, model-checked; the pinned 'dropped exception' variant must be refuted by TLC; typed traces (depth<=2/3, <=2 frames per level) replayed through remap_stacktrace_typed on mapper and cache; generated typed traces validated by TLC; runs of 3 and 4 identical frames; scale probes (Trace_Scale): typed remapping of cause chains of 5000 levels must return, 200000 levels are known finding F8",
+        technique="TypedRemap + TypedLaw + typed/text agreement in TLA+, model-checked; the pinned 'dropped exception' variant must be refuted by TLC; typed traces (depth<=2/3, <=2 frames per level) replayed through remap_stacktrace_typed on mapper and cache; generated typed traces validated by TLC; runs of 3 and 4 identical frames; scale probes (Trace_Scale): typed remapping of cause chains of 3000 levels must return, 200000 levels are known finding F8",
         text="All typed traces over {mapped, mapped with message, unmapped, other mapped} throwables x 5 frame kinds (resolve to 1, to 2, known method no entry, unknown class, no-range entry) up to depth 2 (quick) / 3 (thorough): exact result, preservation law and agreement of printed result with the text API on canonical traces.",
         design="4 C08", note="Canonical = top level has an exception or frame, cause levels have exceptions, frames carry files. Bounded + sampled."),
     "C16": dict(
@@ -44,7 +44,7 @@ CHECKS = {
         text="1554 valid descriptors (6 parameter types incl. class named I, ib/Long, nested non-ASCII arrays x 6 return types) exhaustively, single-character deletions/substitutions/insertions of those with <=1 (quick) / <=2 parameters, plus seeded descriptors and arbitrary Unicode strings where mapper = cache and the stated None classes are enforced.",
         design="4 C16", note="Strings outside the valid grammar and the three stated classes are only required to agree between mapper and cache."),
     "C17": dict(
-        technique="printers (declarative) and byte-level parsers (code-shaped) in StackTraceSyntax.tla; TLC checks Parse(Print(t))=t and Print(Parse(Print(t)))=Print(t) over alphabets containing the parsers' delimiters; same values through constructors/Display/try_parse; generated traces (depth<=5, <=20 frames, lines up to 2^64-1) validated by TLC; classes containing '/', '@', '$$'; files containing parentheses; scale probes (Trace_Scale): parse / Display / == / Clone / Debug / Drop on cause chains of 5000 levels must return; 200000 levels: known finding F8 for the recursive ones",
+        technique="printers (declarative) and byte-level parsers (code-shaped) in StackTraceSyntax.tla; TLC checks Parse(Print(t))=t and Print(Parse(Print(t)))=Print(t) over alphabets containing the parsers' delimiters; same values through constructors/Display/try_parse; generated traces (depth<=5, <=20 frames, lines up to 2^64-1) validated by TLC; classes containing '/', '@', '$$'; files containing parentheses; scale probes (Trace_Scale): parse / Display / == / Clone / Debug / Drop on cause chains of 3000 levels must return; 200000 levels: known finding F8 for the recursive ones",
         text="All traces over messages such as ': ', 'Caused by: x', 'at a.b(c:1)', classes with $ and non-ASCII, '<init>', lines 0 and 2^64-1, files '' and 'x(y)', depth <=3 (quick) / <=5, top-level exception present or absent; round trip of whole traces, single frames and throwables on the spec and on the implementation.",
         design="4 C17", note="Domain: StackTraceSyntax!TraceOk (top level carries an exception or a frame; see DESIGN section 6 item 7)."),
     "C09": dict(
